@@ -152,3 +152,27 @@ def sstep {V} (s : SSt V) : SIn V → SSt V
 def srun {V} (es : List (SIn V)) : SSt V := es.foldl sstep {}
 
 end SFV.Gather
+
+namespace SFV.Gather
+
+/-! ### provenance recorded by `_gather` (`input_token_ids = [size_map[key], *token_map[key]]`) -/
+
+/-- the tokens a gathered list is declared to depend on: the size token of its key (`true` = it is the size token received,
+    `false` = the one synthesised by the forced gathering) and the element tokens of the key in arrival order -/
+structure Prov (V : Type) where
+  key : Tag
+  sizeReceived : Bool
+  elems : List (Tok V)
+
+/-- provenance of the list tokens emitted by one more event: `_gather(key)` reads `token_map[key]` and `size_map[key]` as they
+    are at that moment; neither changes for `key` within the same event -/
+def provOfStep {V} (depth : Nat) (s : St V) (e : Ev V) : List (Prov V) :=
+  let s' := step depth s e
+  let forced := match e with | .term _ _ => true | _ => false
+  (s'.out.drop s.out.length).map (fun o => ⟨o.1, !forced, s'.toks o.1⟩)
+
+def runProv {V} (depth : Nat) : St V → List (Ev V) → List (Prov V)
+  | _, [] => []
+  | s, e :: es => provOfStep depth s e ++ runProv depth (step depth s e) es
+
+end SFV.Gather
